@@ -45,6 +45,11 @@ def quiet():
         lingpy.util.pb = partial(tqdm, leave=False, disable=True)
     except Exception:
         pass
+    # the library asks "do you want to override?" on stdin when a column exists: never block, answer yes
+    import lingpy.basic.parser
+    import lingpy.util
+    lingpy.util.confirm = lambda *a, **k: True
+    lingpy.basic.parser.confirm = lambda *a, **k: True
 
 
 class Unsupported(Exception):
@@ -455,8 +460,9 @@ def _build(case):
         return Wordlist(d), Wordlist
     if t == "lexstat":
         return LexStat(d), LexStat
-    obj = Alignments(d, ref="cogid")
-    return obj, (lambda p: Alignments(p, ref="cogid"))
+    # _interactive=False: a repeated get_consensus() overrides its column instead of asking on stdin
+    obj = Alignments(d, ref="cogid", _interactive=False)
+    return obj, (lambda p: Alignments(p, ref="cogid", _interactive=False))
 
 
 def _pairs(lex):
